@@ -17,7 +17,9 @@ def base_tissue(rng, fam, ncells=None, max_phi=1.2):
     n = ncells or int(rng.integers(8, 70))
     at = tissue.voronoi(rng, n=n, kind=KINDS[int(rng.integers(3))])
     if fam == "mob":
-        at = tissue.random_mobius(rng, at, strength=10 ** rng.uniform(-6, 0.8), max_phi=max_phi)
+        # half of the Moebius images clearly curved (turning 0.05..2 rad per interface), half from nearly straight on
+        st = 10 ** (rng.uniform(-1.5, 0.8) if rng.random() < 0.5 else rng.uniform(-6, -1.5))
+        at = tissue.random_mobius(rng, at, strength=st, max_phi=max_phi)
     elif fam == "arc":
         at = tissue.bulge(rng, at, float(rng.uniform(0.02, 0.6)))
     return at
@@ -32,7 +34,7 @@ def maybe_sub(rng, at, p=0.4, min_cells=3):
 
 def pose(rng, at, mode=None):
     """G-SIM. returns (tissue, description)"""
-    mode = mode or ["id", "rot", "axis", "sim", "reflect"][int(rng.integers(5))]
+    mode = mode or ["id", "rot", "axis", "sim", "reflect", "scale"][int(rng.integers(6))]
     d = {"mode": mode}
     if mode == "id":
         return at, d
@@ -66,6 +68,12 @@ def pose(rng, at, mode=None):
         th = float(rng.uniform(0, 2 * np.pi))
         d.update(theta=th)
         return at.similarity(theta=th, reflect=True), d
+    if mode == "scale":
+        # other length units: micrometre-sized cells given in metres ... kilo-pixels
+        u = rng.random()
+        sc = float(10 ** (rng.uniform(-7, -5) if u < 0.4 else rng.uniform(2, 4) if u < 0.6 else rng.uniform(-5, 2)))
+        d.update(scale=sc)
+        return at.similarity(scale=sc), d
     raise ValueError(mode)
 
 
